@@ -40,3 +40,6 @@ package name
 //@   ensures[memo] len(old(n.HashPath)) > 0 ==> p == old(n.HashPath) && calls("generateSwampFolderName") == old(calls("generateSwampFolderName"))
 //@   ensures[levels_from_full_path] len(old(n.HashPath)) == 0 ==> calls("generateHashedDirectoryPath") == old(calls("generateHashedDirectoryPath")) + 1 && calledwith("generateHashedDirectoryPath", 0, old(n.Path)) && calledwith("generateHashedDirectoryPath", 1, depth) && calledwith("generateHashedDirectoryPath", 2, maxFoldersPerLevel)
 //@   ensures[leaf_from_full_path] len(old(n.HashPath)) == 0 ==> calls("generateSwampFolderName") == old(calls("generateSwampFolderName")) + 1 && calledwith("generateSwampFolderName", 0, old(n.Path))
+
+// Assumed: the accessors and the pattern comparison of a Name only read.
+//@ pureiface Name Get Is ComparePattern
